@@ -16,6 +16,10 @@ Step == /\ l <= Len(Trace) /\ l' = l + 1
            viol' = viol \cup (IF t.stalled = 1 \/ t.pending > 0 THEN {<<l, "Stall">>} ELSE {})
                         \cup (IF t.stalled = 0 /\ t.serving = 0 THEN {<<l, "NotServing">>} ELSE {})
                         \cup (IF t.stalled = 0 /\ t.applied < t.entries THEN {<<l, "EntriesLost">>} ELSE {})
+                        \* every proposer of a catalogue change is answered once its entry is applied (stale = 1: with the log
+                        \* drained and idle for 3 s a goroutine still waits in DatasetManager for the outcome of its proposal -
+                        \* the allocator's node-change worker, whose context ends at shutdown only, is then blocked for good)
+                        \cup (IF t.stalled = 0 /\ t.stale > 0 THEN {<<l, "ProposalNeverAnswered">>} ELSE {})
 Spec == Init /\ [][Step]_vars
 Report == l = Len(Trace) + 1 => PrintT(<<"VIOL", ToJson([n |-> Len(Trace), v |-> viol])>>)
 =============================================================================
